@@ -492,8 +492,11 @@ func structural(p *Prog, comp []*ssa.Function, sites []*recSite, inSCC func(*ssa
 	for _, s := range sites {
 		if s.e.Kind == "funcarg" || s.e.Kind == "extcallback" {
 			if s.e.Kind == "extcallback" {
-				// callback invoked by an external function with arguments we do not see
-				bad[s] = "closure is invoked by an external function"
+				// callback invoked by an external function with arguments we do not see — unless it is one of the
+				// element-wise helpers of package slices, whose callback arguments are elements of the slice passed
+				if _, ok := extElemCallback(s.e.Site.Common()); !ok {
+					bad[s] = "closure is invoked by an external function"
+				}
 			}
 			continue
 		}
